@@ -48,6 +48,7 @@ type StepCase struct {
 	Body       string      `json:"body,omitempty"`
 	Entry      string      `json:"entry,omitempty"`     // run | call | valuecall | eval : API route by which the main program is started
 	LateChan   bool        `json:"late_chan,omitempty"` // install the Interrupt channel only after the runtime has already run scripts
+	OnCopy     bool        `json:"on_copy,omitempty"`   // the main program runs on a Copy() taken after the definition stage
 	ClassB     bool        `json:"class_b"`
 	StackLimit int         `json:"stack_limit"`
 	ChanCap    int         `json:"chan_cap"`
@@ -107,6 +108,8 @@ type stepRun struct {
 	dynLimit, dynDepth0 int
 	faulted  bool
 	haltJS   bool
+	orig     *otto.Otto
+	foreignSteps int
 	hfVals   []interface{}
 	gid      string
 	maxSteps int
@@ -128,7 +131,20 @@ var curStep *stepRun
 
 func stepHook(o *otto.Otto, kind otto.VerifStepKind, node interface{}) {
 	r := curStep
-	if r == nil || !r.active || o != r.vm {
+	if r == nil || !r.active {
+		return
+	}
+	if o != r.vm {
+		// the script was started on r.vm; evaluation on another runtime in the
+		// same call means a copy is executing its original's code
+		r.foreignSteps++
+		if r.foreignSteps > 2000 {
+			if r.viol == nil {
+				r.viol = viol("C18", "script_ran_on_another_runtime", "more than 2000 evaluation steps were executed by a runtime other than the one the script was started on (a copy running its original's functions): interrupts and the depth limit of the running runtime do not apply there")
+			}
+			r.abort = true
+			panic(harnessAbort{"foreign"})
+		}
 		return
 	}
 	idx := r.step
@@ -486,6 +502,15 @@ func (r *stepRun) install() {
 	rethrow := func(call otto.FunctionCall, err error) {
 		panic(call.Otto.MakeCustomError("HostError", err.Error()))
 	}
+	// a Go function bridged through reflection that drives a script callback
+	must(vm.Set("hreflect", func(n int, cb func(int) int) int {
+		r.st.Probe("reflected_go_function_drives_callback")
+		sum := 0
+		for i := 0; i < n; i++ {
+			sum += cb(i)
+		}
+		return sum
+	}))
 	must(vm.Set("hsetlimit", func(call otto.FunctionCall) otto.Value {
 		l, _ := call.Argument(0).ToInteger()
 		r.dynLimit = int(l)
@@ -637,6 +662,16 @@ func execRun(c *StepCase, irqs []Irq, withChan bool, st *Stats, wantAnchors bool
 	if define != "" {
 		if _, err := r.vm.Run(define); err != nil {
 			fatalf("harness: definition stage failed: %v\n%s", err, define)
+		}
+	}
+	if c.OnCopy {
+		// everything defined so far (functions, bound functions, stores) came into
+		// being on the original; the script now runs on its copy
+		orig := r.vm
+		r.vm = orig.Copy()
+		r.orig = orig
+		if !c.LateChan {
+			mkChan()
 		}
 	}
 	if c.LateChan {
@@ -814,6 +849,26 @@ func checkEffects(journal []JEntry, rb string) string {
 	return ""
 }
 
+var freshThresholds = map[[2]int]int{}
+
+// freshThreshold measures, once per (form, limit), how many levels of a
+// recursion form a fresh runtime admits.
+func freshThreshold(fi, lim int) int {
+	if v, ok := freshThresholds[[2]int{fi, lim}]; ok {
+		return v
+	}
+	c := &StepCase{Engine: "stepsim", Program: "1;", ChanCap: 1}
+	r := &stepRun{c: c, st: NewStats(), rng: NewRng(1)}
+	r.vm = otto.New()
+	r.install()
+	r.vm.SetStackDepthLimit(lim)
+	forms := recursionForms("__q")
+	qv, _, _, _ := protectedRun(r.vm, "var __Q=0;function __q(n){__Q++;return "+forms[fi]+";}try{__q(0)}catch(__e){}__Q")
+	n, _ := qv.ToInteger()
+	freshThresholds[[2]int{fi, lim}] = int(n)
+	return int(n)
+}
+
 var contExpected string
 var contSrc = continuationJS()
 
@@ -898,6 +953,19 @@ func postChecks(c *StepCase, res *RunResult) *Violation {
 		}
 		if got, _ := dv.ToInteger(); int(got) != lim-1 {
 			return viol("C18", "limit_not_exact", "limit %d admitted %d nested direct calls after this exit, documented %d", lim, got, lim-1)
+		}
+		// other call forms: whatever a fresh runtime admits under this limit, this
+		// runtime must admit after the exit (a leaked counter or context shifts it)
+		forms := recursionForms("__q")
+		fi := int(c.Seed % uint64(len(forms)))
+		probe := "var __Q=0;function __q(n){__Q++;return " + forms[fi] + ";}try{__q(0)}catch(__e){}__Q"
+		qv, err, p, pv := protectedRun(vm, probe)
+		if p || err != nil {
+			return viol("C18", "depth_probe_failed", "form `%s`: err=%v panic=%v", forms[fi], err, pv)
+		}
+		got, _ := qv.ToInteger()
+		if want := freshThreshold(fi, lim); int(got) != want {
+			return viol("C18", "limit_shifted_after_exit", "recursion form `%s` under limit %d: %d levels admitted after this exit, %d on a fresh runtime", forms[fi], lim, got, want)
 		}
 	}
 	return nil
@@ -1076,6 +1144,7 @@ func genStepCase(t *rapid.T, tier string) *StepCase {
 	c.ChanCap = rapid.IntRange(0, 4).Draw(t, "cap")
 	c.Entry = []string{"run", "run", "call", "valuecall", "eval"}[rapid.IntRange(0, 4).Draw(t, "entry")]
 	c.LateChan = rapid.IntRange(0, 3).Draw(t, "latechan") == 3
+	c.OnCopy = rapid.IntRange(0, 4).Draw(t, "oncopy") == 4 && c.Entry != "run" && c.Entry != ""
 	c.Debugger = rapid.Bool().Draw(t, "dbg")
 	c.TraceLimit = rapid.IntRange(0, 3).Draw(t, "trace")
 	budget := rapid.IntRange(4, 40).Draw(t, "budget")
@@ -1249,7 +1318,69 @@ func (e stepEngine) Preflight(st *Stats) (*Violation, interface{}) {
 		}
 	}
 	st.Probe("dynamic_limit_grid_cells_enumerated")
+	// functions (also bound ones) defined before a Copy(), run on the copy: its
+	// limit and its interrupts must govern them
+	for _, L := range []int{6, 9, 14} {
+		for _, decl := range []string{
+			"var D=0,K=-1;var rb=function(n){D++;if(n>=90)return 0;return rb(n+1)}.bind(null);function __cg(){try{rb(0)}catch(re){K=(re instanceof RangeError)?1:0;}emit('r',D,K);return D}\n",
+			"var D=0,K=-1;function rp(n){D++;if(n>=90)return 0;return rp(n+1)}function __cg(){try{rp(0)}catch(re){K=(re instanceof RangeError)?1:0;}emit('r',D,K);return D}\n",
+			"var D=0,K=-1;var ro={m:function(n){D++;if(n>=90)return 0;return ro.m(n+1)}};function __cg(){try{ro.m.call(ro,0)}catch(re){K=(re instanceof RangeError)?1:0;}emit('r',D,K);return D}\n",
+		} {
+			c := &StepCase{Engine: "stepsim", Mode: "copygrid", StackLimit: L, ChanCap: 1, Program: "", Decls: decl, Entry: "call", OnCopy: true}
+			if v, rc, _ := e.Exec(c, st); v != nil {
+				return v, rc
+			}
+		}
+	}
+	for _, spin := range []string{
+		"var sb=function(){for(;;){}}.bind(null);function __cg(){sb()}\n",
+		"function sp(){for(;;){}}function __cg(){sp.call(null)}\n",
+	} {
+		c := &StepCase{Engine: "stepsim", Mode: "copygrid", ClassB: true, ChanCap: 1, Decls: spin, Entry: "call", OnCopy: true, Irqs: []Irq{{Step: 7, Kind: "panic_error"}}}
+		if v, rc, _ := e.Exec(c, st); v != nil {
+			return v, rc
+		}
+	}
+	st.Probe("copy_grid_cells_enumerated")
 	return nil, nil
+}
+
+// execCopyGrid: one explicit case run on a Copy() (see Preflight).
+func execCopyGrid(c *StepCase, st *Stats) (*Violation, interface{}, bool) {
+	st.Fault("run_on_copy")
+	st.NonTrivial++
+	st.Sig(hashStr("copygrid", c.Decls, strconv.Itoa(c.StackLimit)))
+	cc := *c
+	cc.Body = "return __cg();" // the definition stage carries everything
+	r1 := execRun(&cc, c.Irqs, true, st, false)
+	if r1.run.viol != nil {
+		return r1.run.viol, c, true
+	}
+	if c.ClassB {
+		if v := judge(&cc, nil, r1); v != nil {
+			return v, c, true
+		}
+		return nil, nil, true
+	}
+	if r1.run.overrun {
+		return viol("C18", "stack_limit_not_enforced", "on a Copy(), limit %d: recursion did not stop within %d steps", c.StackLimit, r1.Steps), c, true
+	}
+	if r1.Panicked {
+		return viol("C18", "foreign_panic", "on a Copy(): Call panicked with %T(%v)", r1.PanicVal, r1.PanicVal), c, true
+	}
+	d, k := -1, -2
+	for _, e := range r1.Journal {
+		if e.Tag == "r" {
+			d, k = e.T, e.Kind
+		}
+	}
+	if k != 1 || d > c.StackLimit {
+		return viol("C18", "stack_limit_not_enforced", "a function defined before Copy() recursed on the copy under SetStackDepthLimit(%d): %d levels were admitted, RangeError caught by the script: %v", c.StackLimit, d, k == 1), c, true
+	}
+	if v := postChecks(&cc, r1); v != nil {
+		return v, c, true
+	}
+	return nil, nil, true
 }
 
 // execDynLimit: the limit is tightened by a host function while a recursion
@@ -1365,6 +1496,9 @@ func (stepEngine) Exec(ci interface{}, st *Stats) (*Violation, interface{}, bool
 	}
 	if c.Mode == "dynlimit" {
 		return execDynLimit(c, st)
+	}
+	if c.Mode == "copygrid" {
+		return execCopyGrid(c, st)
 	}
 	st.Cases++
 	var r0 *RunResult
